@@ -21,6 +21,11 @@ func init() {
 }
 
 func runC14(p *Program, r *Result) {
+	// "armor failures carry the armor error type": the typed-error rules of the armor reader
+	defer func() {
+		r.Rule("R14.9", "the armor reader's rules (typed, sticky failures; = C08 R08.3-R08.5)", 0)
+		runC08(p, r)
+	}()
 	table := loadBoundsTable(r)
 	used := map[int]bool{}
 	r.Rule("R14.2", "index, slice, shift and division obligations", 100)
